@@ -566,6 +566,19 @@ func (e *Engine) appendOp(st *State, cc *ssa.CallCommon, args []Val) Val {
 	e.heapSet(st, name, sort, fmt.Sprintf("(store %s %s %s)", h, ref, newArr))
 	res := e.S.Fresh("appended", "Slice")
 	st.assume(fmt.Sprintf("(= %s (mk_slice %s %s %s %s))", res, ref, off, newLen, newCap))
+	if !e.S.BV {
+		// derived facts, stated over the index function so that instantiation finds them: the old elements are
+		// the first elements of the result; a single appended element is the one after them
+		h2 := e.heapGet(st, name, sort)
+		iv := fmt.Sprintf("i!k%d", e.S.fresh)
+		e.S.fresh++
+		newAt := fmt.Sprintf("(select (select %s (sl_ref %s)) %s)", h2, res, e.slIdx(res, iv))
+		oldAt := fmt.Sprintf("(select (select %s (sl_ref %s)) %s)", h, s.T, e.slIdx(s.T, iv))
+		st.assume(fmt.Sprintf("(forall ((%s Int)) (! (=> (and (<= 0 %s) (< %s %s)) (= %s %s)) :pattern (%s)))", iv, iv, iv, oldLen, newAt, oldAt, newAt))
+		if _, ok := singleElem(cc.Args[1]); ok && !isStr {
+			st.assume(fmt.Sprintf("(= (select (select %s (sl_ref %s)) %s) (select (select %s (sl_ref %s)) (sl_off %s)))", h2, res, e.slIdx(res, oldLen), h, add.T, add.T))
+		}
+	}
 	return term(res, cc.Args[0].Type())
 }
 
